@@ -12,6 +12,7 @@ import (
 	"context"
 	"errors"
 	"fmt"
+	"io"
 	"log/slog"
 	"os"
 	"slices"
@@ -431,7 +432,9 @@ func runRefresh(c refCase) (what string, checks int) {
 		var outcomes []error
 		for i, f := range c.Ticks {
 			if f {
-				outcomes = append(outcomes, fmt.Errorf("refresh-error-%d", i))
+				// the text names the tick; what the error wraps rotates: nothing, context.Canceled,
+				// context.DeadlineExceeded, both - a refresh that gave up is an error like any other
+				outcomes = append(outcomes, shapedErr{fmt.Sprintf("refresh-error-%d", i), [][]error{nil, {context.Canceled}, {context.DeadlineExceeded}, {context.Canceled, io.EOF}}[i%4]})
 			} else {
 				outcomes = append(outcomes, nil)
 			}
@@ -809,3 +812,12 @@ func (h *slogRec) Handle(_ context.Context, r slog.Record) error {
 }
 func (h *slogRec) WithAttrs([]slog.Attr) slog.Handler { return h }
 func (h *slogRec) WithGroup(string) slog.Handler      { return h }
+
+// shapedErr is an error with a fixed text that wraps the given errors.
+type shapedErr struct {
+	text  string
+	wraps []error
+}
+
+func (e shapedErr) Error() string   { return e.text }
+func (e shapedErr) Unwrap() []error { return e.wraps }
